@@ -83,7 +83,7 @@ pub fn run(ctx: &mut Ctx) {
 
     // ---- implementation-only oracle ----
     let mut rng = ctx.rng("oracle");
-    let n = if ctx.quick() { 1500 } else { 40000 };
+    let n = if ctx.quick() { 1500 } else { 300000 };
     for k in 0..n {
         let m = (k % 3) as u8;
         let ul = rng.range(1, 16) as usize;
